@@ -467,3 +467,13 @@ def ctable_sweep(chk, classes, simtables):
                               f'simtables.{tname} (Python simulators) gives {bad[2]}', {'kind': 'ctable', 'impl': name, 'code': code, 'regs': bad[0]})
     chk.extra['c_table_entries_compared'] = total
     return total
+
+
+def c_corollaries(chk, module, base_ok):
+    """Regenerate the C handler translation from the tree under test, build and audit `module`
+    (a Props/CxxC.lean file: corollaries for the C simulators of C06's c_step_eq_python / c_run_eq_python).
+    Call AFTER chk.audit of the property's own Props module."""
+    cgen_ok = regen_cgen(chk) if base_ok else False
+    if base_ok and cgen_ok:
+        chk.lake_build([module])
+    chk.audit(module)
